@@ -130,6 +130,7 @@ package bscript
 //@   bytes token
 //@   ensures[C15.p2pkh_from_address] (and (=> (spec.addr_ok (b58dec addr)) (= err nil)) (=> (= err nil) (and (not (nil? r0)) (= (bytes r0) (spec.p2pkh_script (bsub (b58dec addr) 1 21))))))
 //@   check[C15.p2pkh_from_address_only_valid] (=> (= err nil) (spec.addr_ok (b58dec addr)))
+//@   ensures[C15.p2pkh_from_address_shape] (=> (= err nil) (and (= (blen (b58dec addr)) 25) (or (= (bat (b58dec addr) 0) 0) (= (bat (b58dec addr) 0) 111))))
 //@ func bscript.NewAddressFromPublicKey
 //@   bytes token
 //@   fresh r0
